@@ -42,13 +42,15 @@ def inputOf (j : Json) : R Input := do
   pure { genesis := ← natF j "genesis", count := ← natF j "count", cadence := ← natF j "cadence",
          nsubs := ← natF j "subs", delays := ← listF (listOf asNat) j "delays",
          reports := ← listF reportOf j "reports", txs := ← listF submissionOf j "txs",
-         queries := ← listF asNat j "queries" }
+         queries := ← listF asNat j "queries",
+         attach := ← listF asNat j "attach", detach := ← listF asNat j "detach" }
 
 def outOf (genesis : Nat) (j : Json) : R Out := do
   let dict := (← listF blockOf j "dict").toArray
   let hashes := (← listF asStr j "hashes").toArray
   let chain ← listF asNat j "chain"
   pure { chain := chain.map fun i => dict.getD i { number := 0, hash := "?", txs := [] },
+         times := ← listF asNat j "times",
          subs := ← listF (subOf genesis dict hashes) j "subs",
          accepted := ← listF (listOf asBool) j "accepted",
          results := sortBy recLe (← listF recOf j "results") }
@@ -88,6 +90,7 @@ def handle (input impl : Json) : R Reply := do
       match (got.chain.zip want.chain).zipIdx.find? (fun ((a, b), _) => a ≠ b) with
       | some ((a, b), i) => s!"chain block {i}: model={repr b} impl={repr a}"
       | none => s!"chain: {got.chain.length} blocks, model {want.chain.length}"
+    else if got.times ≠ want.times then s!"broadcast instants: model={want.times.take 6}… impl={got.times.take 6}…"
     else if got.accepted ≠ want.accepted then s!"accepted: model={want.accepted} impl={got.accepted}"
     else if got.results ≠ want.results then s!"results: model={repr want.results} impl={repr got.results}"
     else match (got.subs.zip want.subs).zipIdx.find? (fun ((g, w), _) => g ≠ w) with
@@ -113,6 +116,11 @@ def handle (input impl : Json) : R Reply := do
   let tags :=
     (if native then ["native-delay"] else ["proxy-delay"]) ++
     (if crosses then ["crosses-power-of-ten"] else []) ++
+    (if inp.detach.any (· != 0) then ["subscriber-detaches"] else []) ++
+    (if inp.attach.any (· != 0) then ["subscriber-joins-late"] else []) ++
+    (if (inp.detach.zipIdx.any fun (d, i) => d != 0 && (inp.attach.zipIdx.any fun (a, j) => decide (j > i) && (a == 0 || a < d)
+          && (inp.detach.getD j 0 == 0 || inp.detach.getD j 0 > d)))
+      then ["detach-with-later-subscriber-attached"] else []) ++
     (if outOfOrder then ["out-of-order-arrival"] else []) ++
     (if inp.count > Gen.simHistoryDepth then ["history-depth-capped"] else []) ++
     (if got.accepted.any (·.any (!·)) then ["duplicate-transmit-rejected"] else []) ++
